@@ -7,6 +7,7 @@ import (
 	"encoding/json"
 	"fmt"
 	"github.com/trustbloc/sidetree-core-go/pkg/api/operation"
+	"github.com/trustbloc/sidetree-core-go/pkg/versions/1_0/operationparser"
 	"sort"
 	"strings"
 	"sync"
@@ -41,6 +42,9 @@ type idCase struct {
 		Nonce      bool   `json:"nonce"`
 		Segment    string `json:"segment"`
 		Suffix     string `json:"suffix"`
+		Ty         string `json:"ty"`
+		Mode       string `json:"mode"`
+		Rv         string `json:"rv"`
 	} `json:"c"`
 	Out string `json:"out"`
 }
@@ -379,6 +383,8 @@ func C08(c *ev.Ctx) {
 			}
 		case "longform":
 			local += longFormCase(c, cs, viol)
+		case "opreveal":
+			local += revealCase(cs, viol)
 		}
 		mu.Lock()
 		evals += local
@@ -394,7 +400,7 @@ func C08(c *ev.Ctx) {
 	c.Cov.Evaluations = evals
 	c.Cov.DistinctNontrivial = nt
 	c.Cov.Exhaustive = true
-	c.Cov.Rule = "Identity.tla case families x both hash algorithms: (hash) 5 spellings (canonical, members reordered, whitespace, escapes, number spellings) x 5 alteration classes expanded to every member / every byte position of a model with escapes, numbers and nesting; (validate) 7 ways the presented multihash was made (own/other algorithm, other value, digest relabelled, truncated, garbage, empty) x spellings; (commit) 5 key types x nonce: commitment = hash of decoded reveal value, both recomputed independently (sha256/sha512 + hand-encoded multihash); (longform) 14 initial-state classes (canonical, reordered, whitespace, every suffix-data / delta member altered, added member, bad / padded base64, trailing bits, every byte position changed, empty, non-JSON) x suffix (match, other hash, leading / trailing characters dropped, characters added), resolved by the real DocumentHandler over an empty store, and with the DID's create sitting in the unpublished-operation store."
+	c.Cov.Rule = "Identity.tla case families x both hash algorithms: (hash) 5 spellings (canonical, members reordered, whitespace, escapes, number spellings) x 5 alteration classes expanded to every member / every byte position of a model with escapes, numbers and nesting; (validate) 7 ways the presented multihash was made (own/other algorithm, other value, digest relabelled, truncated, garbage, empty) x spellings; (commit) 5 key types x nonce: commitment = hash of decoded reveal value, both recomputed independently (sha256/sha512 + hand-encoded multihash); (opreveal) update / recover / deactivate requests x intake / batch mode x reveal value of the signing key / of another key / relabelled x 5 key types through the real parser; (longform) 14 initial-state classes (canonical, reordered, whitespace, every suffix-data / delta member altered, added member, bad / padded base64, trailing bits, every byte position changed, empty, non-JSON) x suffix (match, other hash, leading / trailing characters dropped, characters added), resolved by the real DocumentHandler over an empty store, and with the DID's create sitting in the unpublished-operation store."
 	c.Finish("model_checking")
 }
 
@@ -418,6 +424,49 @@ func newResolverUnpub(alg uint, suffix string, createReq []byte) *dochandler.Doc
 	unpub := suffixStore{suffix: &operation.AnchoredOperation{Type: operation.TypeCreate, UniqueSuffix: suffix, OperationRequest: createReq}}
 	proc := processor.New("did:sidetree", wire.NewOpStore(), pc, processor.WithUnpublishedOperationStore(unpub))
 	return dochandler.New("did:sidetree", nil, pc, nil, proc, noMetricsDH{})
+}
+
+// revealCase: an update / recover / deactivate request signed by the key it carries, presented with the reveal value of
+// that key, of another key, or with the right digest relabelled as the other algorithm - parsed by the real parser at
+// intake and in batch mode (the mode in which anchored requests are parsed during resolution).
+func revealCase(cs *idCase, viol func(string, interface{})) int64 {
+	kt := concr.KeyTypes[cs.C.Kt]
+	keys, err := concr.NewKeys(9, cs.C.Alg, func(int) concr.KeyType { return kt })
+	if err != nil {
+		ev.Fatal("keys: %v", err)
+	}
+	b, err := concr.NewBuilder(keys, concr.Shape{Ty: "C", Nuc: 4, Nrc: 1, Dl: "ok", Win: "none", P: 10, Sfx: "ok", Sig: "ok"})
+	if err != nil {
+		ev.Fatal("builder: %v", err)
+	}
+	sh := map[string]concr.Shape{"U": {Ty: "U", Rk: 4, Sig: "ok", Nuc: 5, Dl: "ok", Win: "none", P: 11, Sfx: "ok"},
+		"R": {Ty: "R", Rk: 1, Sig: "ok", Nuc: 5, Nrc: 2, Dl: "ok", Win: "none", P: 11, Sfx: "ok"},
+		"D": {Ty: "D", Rk: 1, Sig: "ok", Win: "none", Sfx: "ok"}}[cs.C.Ty]
+	req, err := b.Request(sh)
+	if err != nil {
+		ev.Fatal("request: %v", err)
+	}
+	var m map[string]interface{}
+	_ = json.Unmarshal(req, &m)
+	own, _ := m["revealValue"].(string)
+	switch cs.C.Rv {
+	case "otherKey":
+		m["revealValue"] = keys.ByID[7].RV
+	case "relabelled":
+		raw := b64d(own)
+		m["revealValue"] = b64e(append([]byte{byte(otherAlg(cs.C.Alg)), raw[1]}, raw[2:]...))
+	}
+	presented, _ := canonicalizer.MarshalCanonical(m)
+	params := wire.Params(cs.C.Alg)
+	params.MultihashAlgorithms = []uint{18, 19}
+	_, perr := operationparser.New(params).ParseOperation("did:sidetree", presented, cs.C.Mode == "batch")
+	switch {
+	case cs.Out == "accepted" && perr != nil:
+		viol("consistent-request-rejected:"+cs.C.Ty+":"+cs.C.Mode, map[string]string{"request": string(presented), "error": perr.Error()})
+	case cs.Out == "rejected" && perr == nil:
+		viol("reveal-value-is-not-the-hash-of-the-signing-key-yet-accepted:"+cs.C.Ty+":"+cs.C.Mode+":"+cs.C.Rv, map[string]string{"request": string(presented), "key_type": kt.String()})
+	}
+	return 1
 }
 
 // suffixStore is an unpublished-operation store holding one operation per suffix.
